@@ -160,13 +160,25 @@ def _extract_ignore_patterns(config: dict | None) -> list[str]:
     return []
 
 
+_LINE_BREAK = re.compile(r"\r\n|\r|\n")
+
+
+def _source_lines(content: str) -> list[str]:
+    """Split content into the physical lines violations are numbered by.
+
+    Unlike str.splitlines(), form feeds and Unicode separators do not start a new line,
+    matching how the Python and tree-sitter parsers count lines.
+    """
+    return _LINE_BREAK.split(content)
+
+
 def _read_file_first_lines(file_path: Path) -> list[str]:
     """Read first lines of file for header scanning, return empty list on error."""
     if not file_path.exists():
         return []
     try:
         content = file_path.read_text(encoding="utf-8")
-        return content.splitlines()[:HEADER_SCAN_LINES]
+        return _source_lines(content)[:HEADER_SCAN_LINES]
     except (UnicodeDecodeError, OSError) as e:
         logger.debug("Failed to read file %s: %s", file_path, e)
         return []
@@ -209,13 +221,13 @@ def _check_specific_rule_in_line(code: str, rule_id: str) -> bool:
 
 def _has_file_ignore_in_content(file_content: str, rule_id: str | None) -> bool:
     """Check if file content has ignore-file directive."""
-    lines = file_content.splitlines()[:HEADER_SCAN_LINES]
+    lines = _source_lines(file_content)[:HEADER_SCAN_LINES]
     return any(_check_line_for_ignore(line, rule_id) for line in lines)
 
 
 def _is_ignored_in_content(file_content: str, violation: "Violation") -> bool:
     """Check content-based ignores (block, line, method level)."""
-    lines = file_content.splitlines()
+    lines = _source_lines(file_content)
     if _check_block_ignore(lines, violation):
         return True
     if _check_prev_line_ignore(lines, violation):
